@@ -125,28 +125,36 @@ def class0Hdr : ObjHdr := ⟨60, 1, 0x06, 0, 0, []⟩
 theorem selectStatic_none_iin (db : Db) (t : PtType) (hroom : db.queue.length ≠ db.selCap) :
     (db.selectStatic t none none).2 = 0 := by
   unfold Db.selectStatic
+  simp only [DbProofs.Db.getMutMap_eq', DbProofs.Db.setMutMap_eq']
   cases fullRange (db.map t) with
   | none => rfl
   | some ab =>
     obtain ⟨a, b⟩ := ab
     simp only []
     unfold Db.pushSel
-    have hq : (db.setMap t (snapshot a b (db.map t))).queue = db.queue := by cases t <;> rfl
-    have hc : (db.setMap t (snapshot a b (db.map t))).selCap = db.selCap := by cases t <;> rfl
+    have hq : (db.setMap t (snapshot a b (db.map t))).queue = db.queue := rfl
+    have hc : (db.setMap t (snapshot a b (db.map t))).selCap = db.selCap := rfl
     rw [hq, hc, if_neg hroom]
 
-theorem selectClass0_iin (db : Db) (hq : db.queue = []) (hcap : 2 ≤ db.selCap) : db.selectClass0.2 = 0 := by
+/-- one step of `select_class_zero` with room in the queue: no IIN2 bit, at most one entry more -/
+theorem czStep_room (p : Db × Nat) (t : PtType) (hroom : p.1.queue.length ≠ p.1.selCap) (h0 : p.2 = 0) :
+    (C02Static.czStep p t).2 = 0 ∧ (C02Static.czStep p t).1.selCap = p.1.selCap ∧
+    (C02Static.czStep p t).1.queue.length ≤ p.1.queue.length + 1 := by
+  unfold C02Static.czStep
+  split
+  · refine ⟨?_, (C02Static.selectStatic_none_frame p.1 t hroom).1, C02Static.selectStatic_none_qlen p.1 t hroom⟩
+    simp only [h0, selectStatic_none_iin p.1 t hroom]
+    rfl
+  · exact ⟨h0, rfl, Nat.le_succ _⟩
+
+/-- `hempty`: the database holds binary and analog inputs only (two selections at most) -/
+theorem selectClass0_iin (db : Db) (hq : db.queue = []) (hcap : 2 ≤ db.selCap)
+    (hempty : ∀ t, t ≠ .binary → t ≠ .analog → db.map t = []) : db.selectClass0.2 = 0 := by
+  rw [C02Static.selectClass0_two db hempty]
   have hroom : db.queue.length ≠ db.selCap := by rw [hq]; simp only [List.length_nil]; omega
-  have e1 := selectStatic_none_iin db .binary hroom
-  have hl := C02Static.selectStatic_none_qlen db .binary hroom
-  have hc := (C02Static.selectStatic_none_frame db .binary hroom).1
-  have hroom1 : (db.selectStatic .binary none none).1.queue.length ≠ (db.selectStatic .binary none none).1.selCap := by
-    rw [hc]; rw [hq] at hl; simp only [List.length_nil] at hl; omega
-  have e2 := selectStatic_none_iin (db.selectStatic .binary none none).1 .analog hroom1
-  have e : db.selectClass0.2 = (db.selectStatic .binary none none).2 |||
-      ((db.selectStatic .binary none none).1.selectStatic .analog none none).2 := rfl
-  rw [e, e1, e2]
-  rfl
+  obtain ⟨a1, a2, a3⟩ := czStep_room (db, 0) .binary hroom rfl
+  simp only [hq, List.length_nil] at a2 a3
+  exact (czStep_room _ .analog (by omega) a1).1
 
 /-- `DatabaseHandle::select` for the single header g60v1 / 0x06 is `select_class_zero` -/
 theorem dbSelectAll_class0 (db : Db) :
@@ -232,30 +240,53 @@ theorem dbSelectAll_sorted (hs : List ObjHdr) : ∀ db : Db, DbProofs.StaticSort
     rw [e]
     exact ih _ ((DbProofs.select_keys db (toReadHdr h)).sorted hsd)
 
+theorem dbSelectAll_keys (hs : List ObjHdr) : ∀ db : Db, DbProofs.KeysSame db (dbSelectAll db hs).1 := by
+  induction hs with
+  | nil => intro db; exact DbProofs.KeysSame.refl db
+  | cons h hs ih =>
+    intro db
+    have e : (dbSelectAll db (h :: hs)).1 = (dbSelectAll (db.select (toReadHdr h)).1 hs).1 := rfl
+    rw [e]
+    exact (DbProofs.select_keys db (toReadHdr h)).trans (ih _)
+
+/-- a READ's selections add no point: a type without points still has none -/
+theorem dbSelectAll_empty (hs : List ObjHdr) (db : Db) (t : PtType) (h : db.map t = []) :
+    (dbSelectAll db hs).1.map t = [] :=
+  C02Static.empty_of_keys (dbSelectAll_keys hs db) h
+
+/-- an object a queue entry stands for is an existing point of the matching type (whatever the type)
+    with its `selected` cell, or the dead-band of an existing analog input -/
+theorem mem_itemObjs_ty (db : Db) (it : SelItem) (o : SObj) (h : o ∈ itemObjs db it) :
+    (∃ t, o.g = staticGroup t ∧ ∃ p ∈ db.map t, o.idx = p.1 ∧ o.m = p.2.selected) ∨
+    (o.g = 34 ∧ ∃ p ∈ db.ans, o.idx = p.1 ∧ o.m = { value := p.2.deadband, flags := 0 }) := by
+  rw [DbProofs.itemObjs_eq] at h
+  obtain ⟨p, hp, rfl⟩ := List.mem_map.mp h
+  have hp := (List.mem_filter.mp hp).1
+  unfold DbProofs.mapOf at hp
+  unfold DbProofs.objOf
+  cases hk : it.kind with
+  | typed k var =>
+    rw [hk] at hp
+    exact .inl ⟨k, rfl, p, hp, rfl, rfl⟩
+  | deadband var =>
+    rw [hk] at hp
+    exact .inr ⟨rfl, p, hp, rfl, rfl⟩
+
 /-- an object a queue entry stands for is an existing point of the matching type with its
-    `selected` cell (dead-bands carry no value) -/
-theorem mem_itemObjs (db : Db) (it : SelItem) (o : SObj) (h : o ∈ itemObjs db it) :
+    `selected` cell (for a dead-band object: an existing analog input), in a database that holds binary
+    and analog inputs only (`hempty`; `mem_itemObjs_ty` is the statement for all types) -/
+theorem mem_itemObjs (db : Db) (hempty : ∀ t, t ≠ .binary → t ≠ .analog → db.map t = [])
+    (it : SelItem) (o : SObj) (h : o ∈ itemObjs db it) :
     (o.g = 1 ∧ ∃ p ∈ db.bins, o.idx = p.1 ∧ o.m = p.2.selected) ∨
     (o.g = 30 ∧ ∃ p ∈ db.ans, o.idx = p.1 ∧ o.m = p.2.selected) ∨
     (o.g = 34 ∧ ∃ p ∈ db.ans, o.idx = p.1) := by
-  unfold itemObjs at h
-  cases hk : it.kind with
-  | binary var =>
-    rw [hk] at h
-    simp only [List.mem_map, List.mem_filter] at h
-    obtain ⟨p, ⟨hp, _⟩, rfl⟩ := h
-    exact .inl ⟨rfl, p, hp, rfl, rfl⟩
-  | analog var =>
-    rw [hk] at h
-    simp only [List.mem_map, List.mem_filter] at h
-    obtain ⟨p, ⟨hp, _⟩, rfl⟩ := h
-    exact .inr (.inl ⟨rfl, p, hp, rfl, rfl⟩)
-  | deadband var =>
-    rw [hk] at h
-    simp only [List.mem_map, List.mem_filter] at h
-    obtain ⟨p, ⟨hp, _⟩, rfl⟩ := h
-    exact .inr (.inr ⟨rfl, p, hp, rfl⟩)
-  | other => rw [hk] at h; cases h
+  rcases mem_itemObjs_ty db it o h with ⟨t, hg, p, hp, h1, h2⟩ | ⟨hg, p, hp, h1, _⟩
+  · by_cases hb : t = .binary
+    · subst hb; exact .inl ⟨hg, p, hp, h1, h2⟩
+    · by_cases ha : t = .analog
+      · subst ha; exact .inr (.inl ⟨hg, p, hp, h1, h2⟩)
+      · rw [hempty t hb ha] at hp; cases hp
+  · exact .inr (.inr ⟨hg, p, hp, h1⟩)
 
 theorem mem_writeStaticObjs (db : Db) (hs : DbProofs.StaticSorted db) (cap : Nat) (o : SObj)
     (h : o ∈ (DbProofs.writeStaticObjs db cap).flatten) : ∃ it ∈ db.queue, o ∈ itemObjs db it := by
